@@ -73,6 +73,37 @@ func runC09(r *Run) {
 	r.rule("C09.R5", "a deferred function that performs a store write is guarded by `<named error result> == nil`", 1)
 	r.rule("C09.R6", "oracle params are modified on a copy read from the store, never on the in-memory aggregator's params (a rejected update would leave the process-local state changed)", 2)
 	r.rule("C09.R7", "a failed Ethereum transaction leaves no precompile effect: the message runs on the per-transaction cache context that is committed only on success (C19.R3 obligations)", 4)
+	// a message naming several operators is all-or-nothing: its handler opens one cache context before the loop
+	// over the operators and commits it after the loop
+	for _, nm := range []string{"Keeper.DelegateAssetToOperator", "Keeper.UndelegateAssetFromOperator"} {
+		hv := w.View("x/delegation/keeper", nm)
+		if hv == nil {
+			r.bad("C09.R3", "msg-cache|"+nm, "-", "anchor", nm+" not found")
+			continue
+		}
+		okOne := true
+		nCC, nW := 0, 0
+		for _, c := range hv.CallsNamed("CacheContext") {
+			nCC++
+			if hv.innermostLoop(c) != nil {
+				okOne = false
+			}
+		}
+		ast.Inspect(hv.Decl.Body, func(n ast.Node) bool {
+			c, isC := n.(*ast.CallExpr)
+			if !isC || len(c.Args) != 0 {
+				return true
+			}
+			if id, isID := c.Fun.(*ast.Ident); isID && resolvesToCallV(hv, id, "CacheContext") {
+				nW++
+				if hv.innermostLoop(c) != nil {
+					okOne = false
+				}
+			}
+			return true
+		})
+		r.check(okOne && nCC == 1 && nW == 1, "C09.R3", "msg-cache|"+nm, hv.pos(hv.Decl), "one cache context spans all operators of the message and is committed once, after the loop", nm+" does not use a single cache context around its loop over the operators: when a later operator's part fails, the earlier parts are already written although the message reports the failure")
+	}
 	if r.Prop == "C09" {
 		sub := NewRun(r.W, "C19", r.Tier, r.Seed)
 		runC19(sub)
